@@ -83,8 +83,17 @@ class EmbedAllPermutationsPass(BasePass):
                 'with the same radix on all qudits currently.',
             )
 
-        # Calculate all permuted targets
         width = utry.num_qudits
+
+        # A single-qudit block has nothing to permute or to map, and
+        # search-based synthesis cannot expand a single-qudit circuit,
+        # so the block is recorded as it is.
+        if width == 1:
+            graph = CouplingGraph.all_to_all(1)
+            data['permutation_data'] = {graph: {((0,), (0,)): circuit.copy()}}
+            return
+
+        # Calculate all permuted targets
         perms = list(it.permutations(range(width)))
         no_perm = [tuple(range(width))]
         Pis = [
